@@ -32,19 +32,19 @@ type helperEntry struct {
 	Size                 int
 	Synthetic            bool
 
-	Add, Set                func(p *radius.Packet, tag byte, v gval) error
-	AddString, SetString    func(p *radius.Packet, tag byte, s string) error
-	Get                     func(p, q *radius.Packet) (byte, gval)
-	Gets                    func(p, q *radius.Packet) ([]byte, []gval, error)
-	Lookup                  func(p, q *radius.Packet) (byte, gval, error)
-	GetString               func(p, q *radius.Packet) (byte, string)
-	GetStrings              func(p, q *radius.Packet) ([]byte, []string, error)
-	LookupString            func(p, q *radius.Packet) (byte, string, error)
-	Del                     func(p *radius.Packet)
-	Str                     func(n uint64) string
-	Strings                 func() map[uint64]string
-	Consts                  map[string]uint64
-	DictValues              []dictValue
+	Add, Set             func(p *radius.Packet, tag byte, v gval) error
+	AddString, SetString func(p *radius.Packet, tag byte, s string) error
+	Get                  func(p, q *radius.Packet) (byte, gval)
+	Gets                 func(p, q *radius.Packet) ([]byte, []gval, error)
+	Lookup               func(p, q *radius.Packet) (byte, gval, error)
+	GetString            func(p, q *radius.Packet) (byte, string)
+	GetStrings           func(p, q *radius.Packet) ([]byte, []string, error)
+	LookupString         func(p, q *radius.Packet) (byte, string, error)
+	Del                  func(p *radius.Packet)
+	Str                  func(n uint64) string
+	Strings              func() map[uint64]string
+	Consts               map[string]uint64
+	DictValues           []dictValue
 }
 
 var registryByName map[string]*helperEntry
